@@ -336,6 +336,22 @@ example :
     (st.thr 1).sent = [[.data [.int 9, .int 9], .done]] ∧ st.mem = [[.int 9, .int 9, .int 5]] := by
   decide
 
+/-- `linearizable_complete`'s hypothesis is satisfiable: in the sample run every session (the three that
+send something and all the others) is answered completely -/
+example : ∀ s : Nat, ((runSched execOp (init sampleMem sampleProg) sampleSched).thr s).finished = true := by
+  intro s
+  by_cases h : s < 3
+  · have : s = 0 ∨ s = 1 ∨ s = 2 := by
+      have h' : s < 3 := h
+      omega
+    rcases this with rfl | rfl | rfl <;> decide
+  · have hlt : ∀ x ∈ sampleSched, x < 3 := by decide
+    rw [runSched_thr_of_not_mem _ _ _ _ (fun hm => absurd (hlt s hm) h)]
+    have : sampleProg s = [] := by
+      match s, h with
+      | n + 3, _ => rfl
+    simp [init, Thread.finished, this]
+
 /-- `multi_element_atomic`'s hypotheses are satisfiable: stripe `[0,2)` of the sample is only ever
 overwritten whole -/
 example : Uniform 0 0 2 sampleMem ∧ ∀ s op, [op] ∈ requests (sampleProg s) → op.stripeSafe 0 0 2 := by
